@@ -264,9 +264,15 @@ func zzH_C16_independent() {
 	SetSpanCache(false)
 	zzAssertEqBytes(v1, c1, "first decoded value differs from the input")
 	zzAssertEqBytes(v2, c2, "second decoded value differs from the input")
-	zzAssert(zzDisjoint(v1, enc), "decoded value shares memory with the input buffer")
-	zzAssert(zzDisjoint(v2, enc), "decoded value shares memory with the input buffer")
-	zzAssert(zzDisjoint(v1, v2), "two decoded values share memory")
+	if len(v1) > 0 {
+		zzAssert(zzDisjoint(v1, enc), "decoded value shares memory with the input buffer")
+	}
+	if len(v2) > 0 {
+		zzAssert(zzDisjoint(v2, enc), "decoded value shares memory with the input buffer")
+	}
+	if len(v1) > 0 && len(v2) > 0 {
+		zzAssert(zzDisjoint(v1, v2), "two decoded values share memory")
+	}
 	// overwrite the whole input: the values must not change
 	copy(enc, zzBytes("scribble", len(enc)))
 	zzAssertEqBytes(v1, c1, "first value changed when the input buffer was reused")
